@@ -84,7 +84,7 @@ CHECKS.update({
         "what is a date is delegated to email.utils.parsedate_to_datetime; date hints are bracketed by real clock readings; Atheris campaigns are pinned only approximately by -seed/-runs (the saved input is the reproducible unit)", "DESIGN.md §3 C20"),
     "C17": _std("exploration", "Harness-owned thread scheduler: full depth-first enumeration of all schedules for 2-thread programs, pre-emption-bounded enumeration for generated larger programs; linearizability oracle",
         "The schedule is a generated/enumerated input: real threads run one at a time with every source line of circuit.py/budget.py as a pre-emption point and a cooperative lock. All schedules of every 2-thread/1-operation program from every initial state (two breaker configurations, one budget) are enumerated completely; Hypothesis-generated 2-3 thread programs are explored under all schedules with <= 2/3 pre-emptions. Each outcome must equal one produced by some sequential order; no deadlock. A third stream lets the clock advance between the threads' clock reads and checks the no-over-grant safety bound.",
-        "source-line pre-emption granularity (C-level calls atomic); constant clock during the concurrent episode; 2-3 threads, 1-3 operations each", "DESIGN.md §3 C17"),
+        "source-line pre-emption granularity (C-level calls atomic); constant clock during the concurrent episode; 2-3 threads (plain, or running an asyncio event loop), 1-3 operations each", "DESIGN.md §3 C17"),
 })
 
 PENDING_REASON = "check not built yet in this snapshot (work in progress; see DESIGN.md §3 for the planned generated-input check)"
